@@ -25,5 +25,6 @@ def run(ctx):
     ctx.children(b, 1, run='TestC07Big', timeout=300, what='TestC07Big')
     ctx.children(b, 1, run='TestC07Kept', timeout=300, what='TestC07Kept')
     ctx.children(b, 1, run='TestC07PreMockValues', timeout=300, what='TestC07PreMockValues')
+    ctx.children(b, 1, run='TestC07TableLifetime', timeout=300, what='TestC07TableLifetime', crash_key='C07/method-table-freed-while-mocked')
     if ctx.stats.get('gc_monitors_armed', 0) == 0:
         ctx.inconclusive.append('no GC-reachability monitor could be armed')
